@@ -941,7 +941,8 @@ class mulgrid(object):
 
     def get_right_justified_names(self):
         """Returns True if character part of block names are right-justified."""
-        return all([(blkname[0:3] == blkname[0:3].rjust(3)) for
+        n = 2 if self.convention == 2 else 3
+        return all([(blkname[0:n] == blkname[0:n].strip().rjust(n)) for
                     blkname in self.block_name_list])
     right_justified_names = property(get_right_justified_names)
 
